@@ -42,7 +42,8 @@ ASSUMPTIONS = (
 )
 EXPECTED_PROBES = ("replayed", "created", "expired-recreated", "invalidated-recreated", "cache-disabled-run", "dynamic-key",
                    "nested-cached-inside-cached", "recompiled", "body-raised", "backend-error", "cache-set-get",
-                   "two-templates-colliding-ids", "page-cached", "args-checked", "base-template-section-created", "module-template-twin")
+                   "two-templates-colliding-ids", "page-cached", "args-checked", "base-template-section-created", "mid-template-section-created", "module-template-twin",
+                   "beaker-without-directory")
 
 URIS = ["/a-b.html", "/a_b.html", "/a/b.html", "/c.html"]
 
@@ -121,9 +122,12 @@ def generate(rng, tier, idx, force=None):
     if backend != "dogpile" and not twins and rng.random() < 0.35:
         # a base template with a cached def; some templates inherit from it: its entry lives in the BASE
         # template's cache and is shared by all children
-        base = {"timeout": rng.choice((None, None, 3))}
+        # ... optionally through a middle template with a cached def of the SAME name: three caches in one render
+        base = {"timeout": rng.choice((None, None, 3)), "mid": rng.random() < 0.4}
         for t in tmpls:
             t["inherit"] = rng.random() < 0.7
+            if t["inherit"] and base["mid"]:
+                t["inherit"] = "mid"
     if backend == "beaker-dbm":
         # dbm containers accept only str/bytes keys (Beaker's limitation): no integer cache_key there
         for t in tmpls:
@@ -280,10 +284,17 @@ def emit_base(base):
     return '<%%def name="bd()" cached="True"%s>BD(${tick(\'bd\')}${x})</%%def>BASE[${bd()}|${next.body()}]' % to
 
 
+MID_URI = "/mid.html"
+
+
+def emit_mid():
+    return ('<%%inherit file="%s"/><%%def name="bd()" cached="True">MD(${tick(\'md\')}${x})</%%def>MID{${bd()}|${next.body()}}' % BASE_URI)
+
+
 def emit_template(t, scratch, backend):
     out = ""
     if t.get("inherit"):
-        out += '<%%inherit file="%s"/>' % BASE_URI
+        out += '<%%inherit file="%s"/>' % (MID_URI if t.get("inherit") == "mid" else BASE_URI)
     if t["page"]:
         p = t["page"]
         out += "<%page"
@@ -419,6 +430,7 @@ class Harness:
         self.base = trace.get("base")
         self.lk = None
         self.B = len(self.tmpls)  # model index of the base template
+        self.M = self.B + 1  # ... and of the middle template of a three-level chain
         if self.base:
             import mako.lookup
 
@@ -427,6 +439,10 @@ class Harness:
             self.lk.put_string(BASE_URI, emit_base(self.base))
             self.base_obj = self.lk.get_template(BASE_URI)
             self.model.start[self.B] = self.base_obj.last_modified
+            if self.base.get("mid"):
+                self.lk.put_string(MID_URI, emit_mid())
+                self.mid_obj = self.lk.get_template(MID_URI)
+                self.model.start[self.M] = self.mid_obj.last_modified
         ids = {}
         for ti, t in enumerate(self.tmpls):
             self.compile(ti)
@@ -629,7 +645,24 @@ class Harness:
                     updates[bkey] = Entry(bd, now, self.base.get("timeout"))
                     self.probe("base-template-section-created")
                 text = "BASE[" + bd + "|"
-                text += section(page, pkey, page_body, False)
+                if t.get("inherit") == "mid":
+                    # the middle template's def has the same name and so the same key -- in its OWN cache
+                    mkey = (self.M, "render_bd")
+                    ent = updates.get(mkey)
+                    if ent is None:
+                        ent, edge = m.valid(self.M, "render_bd", now)
+                        if edge:
+                            edges[0] = True
+                    if ent is not None:
+                        self.probe("replayed")
+                        md = ent.text
+                    else:
+                        md = "MD(%s%s)" % (do_tick("md"), x)
+                        updates[mkey] = Entry(md, now, None)
+                        self.probe("mid-template-section-created")
+                    text += "MID{" + md + "|" + section(page, pkey, page_body, False) + "}"
+                else:
+                    text += section(page, pkey, page_body, False)
                 text += "]"
             else:
                 text = section(page, pkey, page_body, False)
@@ -837,10 +870,12 @@ class Harness:
         involved so that the rest of the history is judged from a common state."""
         group = [ti] + list(self.colliding.get(ti, ()))
         if self.base:
-            for key in [kk for kk in self.model.store if kk[0] == self.B]:
+            for key in [kk for kk in self.model.store if kk[0] in (self.B, self.M)]:
                 del self.model.store[key]
             try:
                 self.base_obj.cache.invalidate_def("bd")
+                if self.base.get("mid"):
+                    self.mid_obj.cache.invalidate_def("bd")
             except Exception:
                 pass
         for tj in group:
